@@ -1,22 +1,28 @@
 // C02 (runtime half) + C01 (own-output-form half): model-independent exploration of every XML parser of the library.
 //
-// For every corpus document (corpus/c02_regress.txt first, then corpus/test_xml.txt) x structural mutations x every parser of
-// codec_table.h whose own type check admits the element (parsers without a type check get every document):
-//     o1 = serialize(parse(d)),  o2 = serialize(parse(o1)),  o3 = serialize(parse(o2))
-// oracles (keys):
-//     C02:crash:<parser>:<what>            sanitizer report / signal / exit / timeout inside a library call (what = asan:<type> |
-//                                          ubsan:<file>:<line> | signal-N | exit-N | timeout)
-//     C02:output-not-wellformed:<parser>   o1 (or o2, o3) is not well-formed XML for QDomDocument
+// For every document x every parser of codec_table.h whose own type check admits it (parsers without a type check get every
+// document):     o1 = serialize(parse(d)),  o2 = serialize(parse(o1)),  o3 = serialize(parse(o2))
+// Documents, in stages (each stage is cut into batches run by forked children, see c02_common.h Pool):
+//   0  corpus/c02_regress.txt (minimized past failures), the serialization of a default-constructed object of every class,
+//      every corpus document (corpus/test_xml.txt) and every distinct sub-element of one, unmutated
+//   1  scaling probes: fixed templates (message, presence, roster/disco/jingle IQ, data form, pubsub event, stream features)
+//      grown in ONE dimension (nesting depth, number of children, attribute length, text length) at geometrically spaced
+//      sizes; CPU time of parse+serialize is measured per parser and super-linear growth is reported
+//   2  big-depth probes (stack use) for the parsers stage 1 found to scale linearly
+//   3  seeded structural mutations of the corpus documents (28 kinds, dealt round-robin)
+// Oracles (keys):
+//     C02:crash:<parser>:<what>            sanitizer report / signal / exit / time budget exceeded inside a library call
+//                                          (what = asan:<type> | ubsan:<file>:<line> | signal-N | exit-N | timeout)
+//     C02:superlinear:<parser>:<shape>     CPU time grows faster than ~n^1.6 in <shape> = depth | children | attr-length | text-length
+//     C02:output-not-wellformed:<parser>   an output is not well-formed XML for QDomDocument
 //     C02:not-fixpoint:<parser>            tree(o2) != tree(o3)   (namespace-resolved trees; when only sibling order differs the
 //                                          case is counted under fixpoint_up_to_sibling_order and passes)
 //     C01:own-form-roundtrip:<parser>      tree(o1) != tree(o2) up to sibling order (o1 is a document in the library's own form)
 //     C01:markup-injection:<parser>        an element {urn:canary}canary appears in an output although the input tree had none
 //     C02:harness:<what>                   the harness's own code failed (never a finding; makes the check fail visibly)
-// Work is cut into batches executed by forked children (c02_common.h Pool): a crash only kills the child; the parent reports
-// it with the culprit taken from a shared-memory status block and resumes the batch behind it.
 //
 // usage: parsers --tier quick|thorough --seed N [--workers N] [--depth N] [--only <parser substring>] [--docs <id substring>]
-//                [--per-doc K] [--no-mutations] [--list]
+//                [--per-doc K] [--no-mutations] [--no-probes] [--list] [--show-not-admitted]
 #include "c02_common.h"
 #include "codec_table.h"
 #include "xmlcanon.h"
@@ -25,7 +31,9 @@
 
 #include <QCoreApplication>
 #include <QElapsedTimer>
+#include <cmath>
 #include <set>
+#include <time.h>
 
 using namespace c02;
 
@@ -40,12 +48,20 @@ enum {
     C_MAX_CALL_MS = 0, C_MAX_DEPTH_OK = 1,
     C_ITEMS = 8, C_ADMIT_CALLS, C_ADMITTED, C_ADMITTED_TYPED, C_RUNS, C_OUT_CHECKED, C_BYTES_IN, C_BYTES_OUT, C_EMPTY_OUT, C_PARSEONLY_RUNS,
     C_FIX_ORDER_ONLY, C_OWN_ORDER_ONLY, C_OWN_NOT_ADMITTED, C_MUT_NOT_WF, C_MUT_NOT_APPLICABLE, C_PASS, C_FAIL, C_NSDECL_ONLY, C_XCHECK,
+    C_DEFAULT_NOT_ADMITTED, C_PROBE_ITEMS,
     C_KIND0 = 40,      // + mutation kind (M_KINDS <= 40); C_KIND0-1 = unmutated
     C_PARSER0 = 100,   // + parser index: admitted pairs per parser
     C_NOTADM0 = 300,   // + parser index: own output not admitted by the parser's own type check
 };
 
-struct Work { int doc; int mut; int kind; };   // mut < 0: unmutated
+enum { W_DOC, W_MUT, W_DEFAULT, W_PROBE };
+enum { SH_DEPTH, SH_DEPTH_UNIT, SH_CHILDREN, SH_ATTR_LEN, SH_TEXT_LEN, SH_COUNT };
+static const char *shapeName(int s)
+{
+    static const char *n[] = { "depth", "depth", "children", "attr-length", "text-length" };
+    return n[s];
+}
+struct Work { int type; int doc; int mut; int kind; int parser; int shape; int size; };   // parser < 0: every parser
 
 struct Cfg {
     std::string tier = "quick";
@@ -53,71 +69,121 @@ struct Cfg {
     int workers = 8;
     int depth = 0;
     int perDoc = -1;
-    bool mutations = true;
+    bool mutations = true, probes = true;
     std::string only, docs;
     bool list = false;
     bool showNotAdmitted = false;
+    int cpuBudget = 20;
+    std::string singleProbe;
 };
 
+// ------------------------------------------------------------------------------------------------ probe templates
+struct Tpl {
+    const char *name;
+    const char *xml;
+    std::vector<int> unit;        // the child that is repeated (children) or self-nested (depth-unit)
+    std::vector<int> attrElem; const char *attr;   // attribute grown by attr-length
+    std::vector<int> textElem;    // element whose text is grown by text-length
+};
+static const std::vector<Tpl> &templates()
+{
+    static const std::vector<Tpl> t = {
+        { "message", "<message xmlns='jabber:client' from='a@b.example/c' to='d@e.example' type='chat' id='m1'><body>hello</body><x xmlns='urn:verif:probe' a='1'/></message>",
+          { 1 }, { 1 }, "a", { 0 } },
+        { "presence", "<presence xmlns='jabber:client' from='a@b.example/c' to='d@e.example' id='p1'><status>away</status><x xmlns='urn:verif:probe' a='1'/></presence>",
+          { 1 }, { 1 }, "a", { 0 } },
+        { "iq-roster", "<iq xmlns='jabber:client' type='result' id='r1' from='a@b.example'><query xmlns='jabber:iq:roster' ver='v1'><item jid='c@d.example' name='n' subscription='both'><group>g</group></item></query></iq>",
+          { 0, 0 }, { 0, 0 }, "name", { 0, 0, 0 } },
+        { "iq-disco", "<iq xmlns='jabber:client' type='result' id='d1' from='a@b.example'><query xmlns='http://jabber.org/protocol/disco#info' node='n'><identity category='client' type='pc' name='n'/><feature var='urn:f'/></query></iq>",
+          { 0, 1 }, { 0, 1 }, "var", {} },
+        { "iq-unknown", "<iq xmlns='jabber:client' type='get' id='u1' from='a@b.example/c'><query xmlns='urn:verif:probe' a='1'><i>t</i></query></iq>",
+          { 0, 0 }, { 0 }, "a", { 0, 0 } },
+        { "data-form", "<x xmlns='jabber:x:data' type='form'><title>t</title><field var='f' type='text-single' label='l'><value>v</value></field></x>",
+          { 1 }, { 1 }, "label", { 1, 0 } },
+        { "pubsub-event", "<message xmlns='jabber:client' from='pubsub.b.example' id='e1'><event xmlns='http://jabber.org/protocol/pubsub#event'><items node='n'><item id='i1'><x xmlns='urn:verif:probe' a='1'>t</x></item></items></event></message>",
+          { 0, 0, 0 }, { 0, 0, 0 }, "id", { 0, 0, 0, 0 } },
+        { "iq-jingle", "<iq xmlns='jabber:client' type='set' id='j1' from='a@b.example/c'><jingle xmlns='urn:xmpp:jingle:1' action='session-initiate' sid='s1'><content creator='initiator' name='voice'>"
+                       "<description xmlns='urn:xmpp:jingle:apps:rtp:1' media='audio'><payload-type id='96' name='speex' clockrate='16000'><parameter name='vbr' value='on'/></payload-type></description>"
+                       "<transport xmlns='urn:xmpp:jingle:transports:ice-udp:1' ufrag='u' pwd='p'><candidate component='1' foundation='1' generation='0' id='c1' ip='10.0.1.1' network='1' port='8998' priority='2130706431' protocol='udp' type='host'/></transport>"
+                       "</content></jingle></iq>",
+          { 0, 0, 0, 0 }, { 0, 0, 0, 0 }, "name", {} },
+        { "stream-features", "<stream:features xmlns:stream='http://etherx.jabber.org/streams'><mechanisms xmlns='urn:ietf:params:xml:ns:xmpp-sasl'><mechanism>PLAIN</mechanism></mechanisms><x xmlns='urn:verif:probe' a='1'/></stream:features>",
+          { 0, 0 }, { 1 }, "a", { 0, 0 } },
+        { "element", "<x xmlns='urn:verif:probe' a='1'><i b='2'>t</i></x>", { 0 }, {}, "a", { 0 } },
+    };
+    return t;
+}
+
 static std::vector<vt::Codec> g_table;
-static std::vector<Doc> g_docs;          // regress + corpus
-static std::vector<Node> g_nodes;        // parsed corpus (same index)
+static std::vector<Doc> g_docs;          // regress + corpus + sub-elements
+static std::vector<Node> g_nodes;        // parsed (same index)
+static std::vector<Node> g_tplNodes;
 static size_t g_nRegress = 0, g_nTop = 0;
 static Cfg g_cfg;
 
-static void failLine(const std::string &key, const std::string &parser, const Doc &d, const std::string &mut, const QByteArray &in,
+static void failLine(const std::string &key, const std::string &parser, const std::string &docId, const std::string &mut, const QByteArray &in,
                      const QByteArray &o1, const QByteArray &o2, const QByteArray &o3, const std::string &note)
 {
-    std::string rep = "parser=" + parser + " doc=" + d.id + " mut=" + (mut.empty() ? "none" : mut) + (note.empty() ? "" : " note=" + note) +
+    std::string rep = "parser=" + parser + " doc=" + docId + " mut=" + (mut.empty() ? "none" : mut) + (note.empty() ? "" : " note=" + note) +
         " in=" + escLine(in, 1500) + " o1=" + escLine(o1, 900) + " o2=" + escLine(o2, 900);
     if (!o3.isEmpty()) rep += " o3=" + escLine(o3, 900);
     printf("O FAIL %s\t%s\n", key.c_str(), rep.c_str());
     fflush(stdout);
 }
 
+// bytes requested from the allocator (process-wide, Qt included) -- a deterministic cost measure, unlike time
+extern "C" int __sanitizer_install_malloc_and_free_hooks(void (*malloc_hook)(const volatile void *, size_t), void (*free_hook)(const volatile void *));
+static volatile long long g_allocBytes = 0;
+static void onMalloc(const volatile void *, size_t n) { g_allocBytes = g_allocBytes + (long long)n; }
+static void onFree(const volatile void *) {}
+
+static long long cpuMicros()
+{
+    timespec ts;
+    clock_gettime(CLOCK_PROCESS_CPUTIME_ID, &ts);
+    return (long long)ts.tv_sec * 1000000ll + ts.tv_nsec / 1000;
+}
+// budget: CPU seconds (ITIMER_VIRTUAL -> SIGVTALRM) with a wall-clock backstop of 6x (alarm -> SIGALRM); both kill the child
+static void arm(int cpuSec)
+{
+    itimerval it {}; it.it_value.tv_sec = cpuSec;
+    setitimer(ITIMER_VIRTUAL, &it, nullptr);
+    alarm(unsigned(cpuSec) * 6);
+}
+static void disarm()
+{
+    itimerval it {};
+    setitimer(ITIMER_VIRTUAL, &it, nullptr);
+    alarm(0);
+}
+static long long g_lastCallMicros = 0, g_lastCallAlloc = 0;
 template<typename F>
 static auto timed(Status *st, F &&f)
 {
-    QElapsedTimer t; t.start();
-    armBudget(g_cfg.tier == "quick" ? 30 : 60);
+    long long a0 = g_allocBytes;
+    long long t0 = cpuMicros();
+    arm(g_cfg.cpuBudget);
     auto r = f();
-    disarmBudget();
-    long long ms = t.elapsed();
+    disarm();
+    g_lastCallMicros = cpuMicros() - t0;
+    g_lastCallAlloc = g_allocBytes - a0;
+    long long ms = g_lastCallMicros / 1000;
     if (ms > st->counters[C_MAX_CALL_MS]) st->counters[C_MAX_CALL_MS] = ms;
     return r;
 }
 
-static void runItem(const Work &w, int itemIdx, int resumeParser, Status *st, int &samplesLeft)
+// The whole oracle chain for one input document. onlyParser >= 0 restricts to one parser; probeTag != "" prints T lines.
+static void explore(const QByteArray &in, const std::string &docId, const std::string &mutDesc, int onlyParser, int resumeParser,
+                    Status *st, int &samplesLeft, const std::string &probeTag, bool isMutant)
 {
-    st->item = itemIdx; st->parser = -1; st->phase = PH_PREP;
-    const Doc &d = g_docs[w.doc];
-    vh::Rng rng(g_cfg.seed * 1000003ull + uint64_t(w.doc) * 7919ull + uint64_t(w.mut + 1) * 104729ull);
-    QByteArray in;
-    std::string mutDesc;
-    if (w.mut < 0) {
-        in = d.xml;
-        st->counters[C_KIND0 - 1]++;
-    } else {
-        Node n = g_nodes[w.doc];
-        int deep = g_cfg.depth;
-        bool bigLong = g_cfg.tier != "quick" || rng.below(4) == 0;
-        MutCtx ctx { rng, &g_nodes, deep, g_cfg.tier == "quick" ? 3000 : 20000, bigLong ? (1 << 20) : (1 << 16) };
-        int kind = w.kind;
-        for (int tries = 0; tries < M_KINDS && mutDesc.empty(); tries++, kind = (kind + 1) % M_KINDS) {
-            mutDesc = mutate(n, kind, ctx);
-            if (mutDesc.empty()) st->counters[C_MUT_NOT_APPLICABLE]++;
-            else st->counters[C_KIND0 + kind]++;
-        }
-        if (mutDesc.empty()) return;
-        in = render(n);
-    }
     QDomDocument inDoc;
-    armBudget(60);
+    arm(120);
     bool ok = inDoc.setContent(in, true) && !inDoc.documentElement().isNull();
-    disarmBudget();
+    disarm();
     if (!ok) {
         st->counters[C_MUT_NOT_WF]++;
-        if (w.mut >= 0) { printf("O FAIL C02:harness:mutant-not-wellformed\tdoc=%s mut=%s in=%s\n", d.id.c_str(), mutDesc.c_str(), escLine(in, 600).c_str()); fflush(stdout); }
+        printf("O FAIL C02:harness:input-not-wellformed\tdoc=%s mut=%s in=%s\n", docId.c_str(), mutDesc.c_str(), escLine(in, 600).c_str());
+        fflush(stdout);
         return;
     }
     st->counters[C_ITEMS]++;
@@ -127,13 +193,20 @@ static void runItem(const Work &w, int itemIdx, int resumeParser, Status *st, in
 
     for (size_t p = 0; p < g_table.size(); p++) {
         if (int(p) <= resumeParser) continue;
+        if (onlyParser >= 0 && int(p) != onlyParser) continue;
         const vt::Codec &c = g_table[p];
         if (!g_cfg.only.empty() && c.name.find(g_cfg.only) == std::string::npos) continue;
         st->parser = int(p);
         st->phase = PH_ADMIT;
         st->counters[C_ADMIT_CALLS]++;
         bool admitted = timed(st, [&] { return c.admits(root); });
-        if (!admitted) continue;
+        if (!admitted) {
+            if (onlyParser >= 0 && probeTag.empty()) {   // a class's own default output
+                st->counters[C_DEFAULT_NOT_ADMITTED]++;
+                printf("X default-constructed %s serializes to a document its own type check rejects: %s\n", c.name.c_str(), escLine(in, 300).c_str());
+            }
+            continue;
+        }
         st->counters[C_ADMITTED]++;
         if (c.typeChecked) st->counters[C_ADMITTED_TYPED]++;
         st->counters[C_PARSER0 + p]++;
@@ -142,32 +215,33 @@ static void runItem(const Work &w, int itemIdx, int resumeParser, Status *st, in
         TestClient::resetIds();
         st->phase = PH_RUN1;
         QByteArray o1 = timed(st, [&] { return c.parseAndSerialize(root); });
+        if (!probeTag.empty()) printf("T %s\t%s\t%lld\t%lld\n", c.name.c_str(), probeTag.c_str(), g_lastCallMicros, g_lastCallAlloc);
         st->counters[C_RUNS]++;
         st->counters[C_BYTES_OUT] += o1.size();
         if (c.parseOnly) { st->counters[C_PARSEONLY_RUNS]++; st->counters[C_PASS]++; continue; }
         if (o1.isEmpty()) { st->counters[C_EMPTY_OUT]++; st->counters[C_PASS]++; continue; }
 
         st->phase = PH_ORACLE;
-        armBudget(120);
+        arm(200);
         QDomDocument d1, d2;
         QDomElement r1, r2;
         Summary s1 = summarizeXml(o1, ctxNs, &d1, &r1);
-        disarmBudget();
+        disarm();
         st->counters[C_OUT_CHECKED]++;
         bool failed = false;
         QByteArray o2, o3;
         Summary s2, s3;
         if (!s1.wellFormed) {
-            failLine("C02:output-not-wellformed:" + c.name, c.name, d, mutDesc, in, o1, {}, {}, "o1");
+            failLine("C02:output-not-wellformed:" + c.name, c.name, docId, mutDesc, in, o1, {}, {}, "o1");
             failed = true;
         } else {
-            if (s1.canaries > sin.canaries) { failLine("C01:markup-injection:" + c.name, c.name, d, mutDesc, in, o1, {}, {}, "canary element in o1"); failed = true; }
+            if (s1.canaries > sin.canaries) { failLine("C01:markup-injection:" + c.name, c.name, docId, mutDesc, in, o1, {}, {}, "canary element in o1"); failed = true; }
             if (c.typeChecked) {
                 st->phase = PH_ADMIT;
                 bool again = timed(st, [&] { return c.admits(r1); });
                 if (!again) {
                     st->counters[C_OWN_NOT_ADMITTED]++; st->counters[C_NOTADM0 + p]++;
-                    if (g_cfg.showNotAdmitted) printf("X own output not admitted: %s doc=%s mut=%s in=%s o1=%s\n", c.name.c_str(), d.id.c_str(), mutDesc.c_str(), escLine(in, 500).c_str(), escLine(o1, 500).c_str());
+                    if (g_cfg.showNotAdmitted) printf("X own output not admitted: %s doc=%s mut=%s in=%s o1=%s\n", c.name.c_str(), docId.c_str(), mutDesc.c_str(), escLine(in, 500).c_str(), escLine(o1, 500).c_str());
                 }
             }
             TestClient::resetIds();
@@ -175,50 +249,50 @@ static void runItem(const Work &w, int itemIdx, int resumeParser, Status *st, in
             o2 = timed(st, [&] { return c.parseAndSerialize(r1); });
             st->counters[C_RUNS]++; st->counters[C_BYTES_OUT] += o2.size();
             st->phase = PH_ORACLE;
-            armBudget(120);
+            arm(200);
             if (!o2.isEmpty()) s2 = summarizeXml(o2, ctxNs, &d2, &r2);
-            disarmBudget();
+            disarm();
             st->counters[C_OUT_CHECKED]++;
             if (o2.isEmpty()) {
-                failLine("C01:own-form-roundtrip:" + c.name, c.name, d, mutDesc, in, o1, o2, {}, "own output parsed to an object that serializes to nothing (rejected by the parser)");
+                failLine("C01:own-form-roundtrip:" + c.name, c.name, docId, mutDesc, in, o1, o2, {}, "own output parsed to an object that serializes to nothing (rejected by the parser)");
                 failed = true;
             } else if (!s2.wellFormed) {
-                failLine("C02:output-not-wellformed:" + c.name, c.name, d, mutDesc, in, o1, o2, {}, "o2");
+                failLine("C02:output-not-wellformed:" + c.name, c.name, docId, mutDesc, in, o1, o2, {}, "o2");
                 failed = true;
             } else {
-                if (s2.canaries > sin.canaries && !failed) { failLine("C01:markup-injection:" + c.name, c.name, d, mutDesc, in, o1, o2, {}, "canary element in o2"); failed = true; }
+                if (s2.canaries > sin.canaries && !failed) { failLine("C01:markup-injection:" + c.name, c.name, docId, mutDesc, in, o1, o2, {}, "canary element in o2"); failed = true; }
                 if (s1.ordered != s2.ordered) {
                     if (s1.sorted == s2.sorted) st->counters[C_OWN_ORDER_ONLY]++;
-                    else { failLine("C01:own-form-roundtrip:" + c.name, c.name, d, mutDesc, in, o1, o2, {}, ""); failed = true; }
+                    else { failLine("C01:own-form-roundtrip:" + c.name, c.name, docId, mutDesc, in, o1, o2, {}, ""); failed = true; }
                 }
                 TestClient::resetIds();
                 st->phase = PH_RUN3;
                 o3 = timed(st, [&] { return c.parseAndSerialize(r2); });
                 st->counters[C_RUNS]++; st->counters[C_BYTES_OUT] += o3.size();
                 st->phase = PH_ORACLE;
-                armBudget(120);
+                arm(200);
                 if (!o3.isEmpty()) s3 = summarizeXml(o3, ctxNs);
                 st->counters[C_OUT_CHECKED]++;
                 if (o3.isEmpty() || !s3.wellFormed) {
-                    failLine(o3.isEmpty() ? "C02:not-fixpoint:" + c.name : "C02:output-not-wellformed:" + c.name, c.name, d, mutDesc, in, o1, o2, o3, "o3");
+                    failLine(o3.isEmpty() ? "C02:not-fixpoint:" + c.name : "C02:output-not-wellformed:" + c.name, c.name, docId, mutDesc, in, o1, o2, o3, "o3");
                     failed = true;
                 } else if (s2.ordered != s3.ordered) {
                     if (s2.sorted == s3.sorted) st->counters[C_FIX_ORDER_ONLY]++;
-                    else { failLine("C02:not-fixpoint:" + c.name, c.name, d, mutDesc, in, o1, o2, o3, ""); failed = true; }
+                    else { failLine("C02:not-fixpoint:" + c.name, c.name, docId, mutDesc, in, o1, o2, o3, ""); failed = true; }
                 } else if (o2.size() < 20000 && s2.maxDepth < 200) {
                     // cross-check the hashed comparison with the declaration-level canonical form shared with the Lean side
                     st->counters[C_XCHECK]++;
                     if (vh::canonOfXml(o2) != vh::canonOfXml(o3)) st->counters[C_NSDECL_ONLY]++;
                 }
-                disarmBudget();
+                disarm();
             }
         }
         if (failed) st->counters[C_FAIL]++;
         else {
             st->counters[C_PASS]++;
-            if (samplesLeft > 0 && w.mut >= 0 && c.typeChecked && o1.size() < 400) {
+            if (samplesLeft > 0 && isMutant && c.typeChecked && o1.size() < 400) {
                 samplesLeft--;
-                printf("X %s doc=%s mut=%s in=%s -> o1=%s (o2,o3 same tree)\n", c.name.c_str(), d.id.c_str(), mutDesc.c_str(), escLine(in, 300).c_str(), escLine(o1, 300).c_str());
+                printf("X %s doc=%s mut=%s in=%s -> o1=%s (o2,o3 same tree)\n", c.name.c_str(), docId.c_str(), mutDesc.c_str(), escLine(in, 300).c_str(), escLine(o1, 300).c_str());
             }
         }
         long dep = std::max(std::max(s1.maxDepth, s2.maxDepth), sin.maxDepth);
@@ -229,6 +303,88 @@ static void runItem(const Work &w, int itemIdx, int resumeParser, Status *st, in
     st->parser = int(g_table.size());
     st->phase = PH_ORACLE;
     safeClear(inDoc, sin.maxDepth);
+}
+
+static QByteArray probeDoc(int tpl, int shape, int size)
+{
+    Node n = g_tplNodes[tpl];
+    const Tpl &t = templates()[tpl];
+    switch (shape) {
+    case SH_DEPTH: {
+        Node x; x.local = QStringLiteral("x"); x.ns = QStringLiteral("urn:verif:probe"); x.wrap = size;
+        n.kids.push_back(x);
+        break;
+    }
+    case SH_DEPTH_UNIT: { Node *u = resolve(n, t.unit); if (!u) return {}; u->wrap = size; break; }
+    case SH_CHILDREN: { Node *u = resolve(n, t.unit); if (!u) return {}; u->repeat = size; break; }
+    case SH_ATTR_LEN: {
+        Node *u = resolve(n, t.attrElem); if (!u) return {};
+        bool found = false;
+        for (auto &a : u->attrs) if (a.local == QLatin1String(t.attr)) { a.value = QString(size, QChar(u'A')); found = true; }
+        if (!found) return {};
+        break;
+    }
+    case SH_TEXT_LEN: {
+        if (t.textElem.empty()) return {};
+        Node *u = resolve(n, t.textElem); if (!u) return {};
+        u->kids.clear();
+        Node x; x.isText = true; x.text = QString(size, QChar(u'B')); u->kids.push_back(x);
+        break;
+    }
+    }
+    return render(n);
+}
+
+static void runItem(const Work &w, int itemIdx, int resumeParser, Status *st, int &samplesLeft)
+{
+    st->item = itemIdx; st->parser = -1; st->phase = PH_PREP;
+    switch (w.type) {
+    case W_DOC:
+        st->counters[C_KIND0 - 1]++;
+        explore(g_docs[w.doc].xml, g_docs[w.doc].id, "", -1, resumeParser, st, samplesLeft, "", false);
+        break;
+    case W_MUT: {
+        vh::Rng rng(g_cfg.seed * 1000003ull + uint64_t(w.doc) * 7919ull + uint64_t(w.mut + 1) * 104729ull);
+        Node n = g_nodes[w.doc];
+        bool quick = g_cfg.tier == "quick";
+        bool bigLong = !quick || rng.below(4) == 0;
+        MutCtx ctx { rng, &g_nodes, quick ? 48 : 160, quick ? 2000 : 20000, bigLong ? (1 << 20) : (1 << 16) };
+        int kind = w.kind;
+        std::string mutDesc;
+        for (int tries = 0; tries < M_KINDS && mutDesc.empty(); tries++, kind = (kind + 1) % M_KINDS) {
+            mutDesc = mutate(n, kind, ctx);
+            if (mutDesc.empty()) st->counters[C_MUT_NOT_APPLICABLE]++;
+            else st->counters[C_KIND0 + kind]++;
+        }
+        if (mutDesc.empty()) return;
+        explore(render(n), g_docs[w.doc].id, mutDesc, -1, resumeParser, st, samplesLeft, "", true);
+        break;
+    }
+    case W_DEFAULT: {
+        if (resumeParser >= w.parser) return;
+        const vt::Codec &c = g_table[w.parser];
+        if (!c.defaultOutput) return;
+        st->parser = w.parser; st->phase = PH_RUN1;
+        QByteArray o0 = timed(st, [&] { return c.defaultOutput(); });
+        if (o0.isEmpty()) return;
+        // own outputs carry no namespace of their own when the class relies on its parent's: nothing to feed then unless well-formed
+        if (!summarizeXml(o0, QString()).wellFormed) {
+            failLine("C02:output-not-wellformed:" + c.name, c.name, "default-constructed", "", {}, o0, {}, {}, "serialization of a default-constructed object");
+            return;
+        }
+        explore(o0, "default:" + c.name, "", w.parser, -1, st, samplesLeft, "", false);
+        break;
+    }
+    case W_PROBE: {
+        QByteArray in = probeDoc(w.doc, w.shape, w.size);
+        if (in.isEmpty()) return;
+        st->counters[C_PROBE_ITEMS]++;
+        std::string tag = std::string(templates()[w.doc].name) + "\t" + std::to_string(w.shape) + "\t" + std::to_string(w.size);
+        std::string id = std::string("probe:") + templates()[w.doc].name + ":" + shapeName(w.shape) + (w.shape == SH_DEPTH_UNIT ? "(unit)" : "") + "=" + std::to_string(w.size);
+        explore(in, id, "", w.parser, resumeParser, st, samplesLeft, tag, false);
+        break;
+    }
+    }
 }
 
 int main(int argc, char **argv)
@@ -246,14 +402,17 @@ int main(int argc, char **argv)
         else if (s == "--docs") g_cfg.docs = next();
         else if (s == "--per-doc") g_cfg.perDoc = atoi(next().c_str());
         else if (s == "--no-mutations") g_cfg.mutations = false;
+        else if (s == "--no-probes") g_cfg.probes = false;
         else if (s == "--list") g_cfg.list = true;
         else if (s == "--show-not-admitted") g_cfg.showNotAdmitted = true;
+        else if (s == "--cpu-budget") g_cfg.cpuBudget = atoi(next().c_str());
+        else if (s == "--single-probe") g_cfg.singleProbe = next();   // <template index>,<shape index>,<size>
     }
     if (g_cfg.workers < 1) g_cfg.workers = 1;
     if (g_cfg.workers > 32) g_cfg.workers = 32;
     bool quick = g_cfg.tier == "quick";
-    if (g_cfg.depth <= 0) g_cfg.depth = quick ? 1000 : 5000;
-    if (g_cfg.perDoc < 0) g_cfg.perDoc = quick ? 6 : 56;
+    if (g_cfg.depth <= 0) g_cfg.depth = quick ? 2000 : 10000;
+    if (g_cfg.perDoc < 0) g_cfg.perDoc = quick ? 6 : 60;
 
     {   // registers the QXmppExportData extension parsers (roster, vcard) as a real client does
         QXmppClient registrar;
@@ -308,21 +467,13 @@ int main(int argc, char **argv)
         for (size_t i = g_nRegress; i < nTop; i++) { Node copy = g_nodes[i]; std::string id = g_docs[i].id; rec(copy, id, ""); }
     }
     g_nTop = nTop;
-
-    // ---- work list: regress + every document unmutated, then the mutations (kinds dealt round-robin so every kind gets an equal share)
-    std::vector<Work> work;
-    for (size_t i = 0; i < g_docs.size(); i++) work.push_back({ int(i), -1, -1 });
-    if (g_cfg.mutations) {
-        int g = int(g_cfg.seed % M_KINDS);
-        // top-level documents get perDoc mutants each, extracted sub-elements perDoc/6 (at least 1)
-        int perSub = std::max(1, g_cfg.perDoc / 6);
-        for (int m = 0; m < g_cfg.perDoc; m++)
-            for (size_t i = g_nRegress; i < g_docs.size(); i++)
-                if (i < g_nTop || m < perSub) work.push_back({ int(i), m, (g++) % M_KINDS });
+    for (auto &t : templates()) {
+        QDomDocument doc;
+        if (!doc.setContent(QByteArray(t.xml), true)) { fprintf(stderr, "template %s is not well-formed\n", t.name); return 3; }
+        g_tplNodes.push_back(nodeFromDom(doc.documentElement()));
     }
-    const int batchSize = 24;
-    int nBatches = int((work.size() + batchSize - 1) / batchSize);
 
+    __sanitizer_install_malloc_and_free_hooks(onMalloc, onFree);
     Pool pool;
     pool.workers = g_cfg.workers;
     pool.workDir = root + "/.build/harness/parsers.work";
@@ -330,58 +481,177 @@ int main(int argc, char **argv)
     pool.init();
 
     std::map<std::string, long> failCount;
-    long suppressed = 0, crashes = 0;
-    int xLeft = g_cfg.showNotAdmitted ? 200 : 6;
+    long suppressed = 0, crashes = 0, workTotal = 0;
+    int xLeft = g_cfg.showNotAdmitted ? 200 : 8;
     QElapsedTimer wall; wall.start();
+    // probe timings: (parser, template, shape) -> size -> cpu micros
+    std::map<std::string, std::map<int, long long>> timings, allocs;
+    std::set<std::string> probeCrashed;   // parser names that crashed / timed out in a depth probe
 
-    auto childFn = [&](int batch, int resumeItem, int resumeParser, Status *st) {
-        int samplesLeft = batch % 7 == 3 ? 1 : 0;
-        size_t lo = size_t(batch) * batchSize, hi = std::min(work.size(), lo + batchSize);
-        for (size_t k = lo; k < hi; k++) {
-            int idx = int(k - lo);
-            if (idx < resumeItem) continue;
-            int rp = -1;
-            if (idx == resumeItem) { if (resumeParser < 0) continue; rp = resumeParser; }
-            runItem(work[k], idx, rp, st, samplesLeft);
-        }
-    };
-    auto onResult = [&](const ChildResult &r, const QByteArray &out) {
-        for (const QByteArray &line : out.split('\n')) {
-            if (line.startsWith("O FAIL ")) {
-                int t = line.indexOf('\t');
-                std::string key = line.mid(7, t < 0 ? -1 : t - 7).toStdString();
-                if (++failCount[key] <= 3) { fwrite(line.constData(), 1, line.size(), stdout); fputc('\n', stdout); }
-                else suppressed++;
-            } else if (line.startsWith("X ")) {
-                if (xLeft > 0) { xLeft--; fwrite(line.constData(), 1, line.size(), stdout); fputc('\n', stdout); }
+    auto runStage = [&](const char *stageName, const std::vector<Work> &work, int batchSize) {
+        if (work.empty()) return;
+        workTotal += long(work.size());
+        int nBatches = int((work.size() + batchSize - 1) / batchSize);
+        pool.tag = stageName;
+        auto childFn = [&](int batch, int resumeItem, int resumeParser, Status *st) {
+            int samplesLeft = batch % 7 == 3 ? 1 : 0;
+            size_t lo = size_t(batch) * batchSize, hi = std::min(work.size(), lo + batchSize);
+            for (size_t k = lo; k < hi; k++) {
+                int idx = int(k - lo);
+                if (idx < resumeItem) continue;
+                int rp = -1;
+                if (idx == resumeItem) { if (resumeParser < 0) continue; rp = resumeParser; }
+                runItem(work[k], idx, rp, st, samplesLeft);
             }
-        }
-        if (r.crashed) {
-            crashes++;
-            size_t k = size_t(r.batch) * batchSize + size_t(std::max(0, r.item));
-            std::string what = classifyCrash(r);
-            std::string parser = r.parser >= 0 && r.parser < int(g_table.size()) ? g_table[r.parser].name : "-";
-            bool inLibrary = r.phase == PH_ADMIT || r.phase == PH_RUN1 || r.phase == PH_RUN2 || r.phase == PH_RUN3;
-            std::string docId = k < work.size() ? g_docs[work[k].doc].id : "?";
-            std::string key = inLibrary ? "C02:crash:" + parser + ":" + what : "C02:harness:" + std::string(phaseName(r.phase)) + ":" + what;
-            // name the input the way the line protocol asks for, then the failure itself
-            printf("I %s %s work=%zu kind=%s phase=%s\n", parser.c_str(), docId.c_str(), k, k < work.size() && work[k].mut >= 0 ? mutName(work[k].kind) : "none", phaseName(r.phase));
-            std::string tail = r.errText;
-            auto sp = tail.find("SUMMARY:");
-            std::string summary = sp == std::string::npos ? "" : tail.substr(sp, tail.find('\n', sp) - sp);
-            auto ep = tail.find("ERROR: ");
-            std::string first = ep == std::string::npos ? "" : tail.substr(ep, tail.find('\n', ep) - ep);
-            if (++failCount[key] <= 3) {
-                printf("O FAIL %s\tparser=%s doc=%s work=%zu seed=%llu mutation-kind=%s phase=%s exit=%d signal=%d %s | %s | xml-of-unmutated-doc=%s | child-output=%s\n",
-                       key.c_str(), parser.c_str(), docId.c_str(), k, (unsigned long long)g_cfg.seed,
-                       k < work.size() && work[k].mut >= 0 ? mutName(work[k].kind) : "none", phaseName(r.phase), r.exitCode, r.signal,
-                       escLine(QByteArray::fromStdString(first), 300).c_str(), escLine(QByteArray::fromStdString(summary), 300).c_str(),
-                       k < work.size() ? escLine(g_docs[work[k].doc].xml, 700).c_str() : "", r.outPath.c_str());
-            } else suppressed++;
-        }
-        fflush(stdout);
+        };
+        auto onResult = [&](const ChildResult &r, const QByteArray &out) {
+            for (const QByteArray &line : out.split('\n')) {
+                if (line.startsWith("O FAIL ")) {
+                    int t = line.indexOf('\t');
+                    std::string key = line.mid(7, t < 0 ? -1 : t - 7).toStdString();
+                    if (++failCount[key] <= 3) { fwrite(line.constData(), 1, line.size(), stdout); fputc('\n', stdout); }
+                    else suppressed++;
+                } else if (line.startsWith("X ")) {
+                    if (xLeft > 0) { xLeft--; fwrite(line.constData(), 1, line.size(), stdout); fputc('\n', stdout); }
+                } else if (line.startsWith("T ")) {
+                    auto f = line.mid(2).split('\t');
+                    if (f.size() == 6) {
+                        std::string k = (f[0] + "\t" + f[1] + "\t" + f[2]).toStdString();
+                        timings[k][f[3].toInt()] = f[4].toLongLong();
+                        allocs[k][f[3].toInt()] = f[5].toLongLong();
+                    }
+                }
+            }
+            if (r.crashed) {
+                crashes++;
+                size_t k = size_t(r.batch) * batchSize + size_t(std::max(0, r.item));
+                const Work *w = k < work.size() ? &work[k] : nullptr;
+                std::string what = classifyCrash(r);
+                if (r.signal == SIGVTALRM) what = "timeout";
+                std::string parser = r.parser >= 0 && r.parser < int(g_table.size()) ? g_table[r.parser].name : "-";
+                bool inLibrary = r.phase == PH_ADMIT || r.phase == PH_RUN1 || r.phase == PH_RUN2 || r.phase == PH_RUN3;
+                std::string docId = "?", kind = "none", xml;
+                if (w) {
+                    if (w->type == W_DOC || w->type == W_MUT) { docId = g_docs[w->doc].id; xml = escLine(g_docs[w->doc].xml, 700); if (w->type == W_MUT) kind = mutName(w->kind); }
+                    else if (w->type == W_DEFAULT) docId = "default:" + g_table[w->parser].name;
+                    else { docId = std::string("probe:") + templates()[w->doc].name + ":" + shapeName(w->shape) + "=" + std::to_string(w->size); xml = templates()[w->doc].xml; kind = shapeName(w->shape); }
+                    if (w->type == W_PROBE && (w->shape == SH_DEPTH || w->shape == SH_DEPTH_UNIT)) probeCrashed.insert(parser);
+                }
+                std::string key = inLibrary ? "C02:crash:" + parser + ":" + what : "C02:harness:" + std::string(phaseName(r.phase)) + ":" + what;
+                // name the input the way the line protocol asks for, then the failure itself
+                printf("I %s %s stage=%s work=%zu kind=%s phase=%s\n", parser.c_str(), docId.c_str(), stageName, k, kind.c_str(), phaseName(r.phase));
+                std::string tail = r.errText;
+                auto sp = tail.find("SUMMARY:");
+                std::string summary = sp == std::string::npos ? "" : tail.substr(sp, tail.find('\n', sp) - sp);
+                auto ep = tail.find("ERROR: ");
+                if (ep == std::string::npos) ep = tail.find("runtime error: ");
+                std::string first = ep == std::string::npos ? "" : tail.substr(ep, tail.find('\n', ep) - ep);
+                if (++failCount[key] <= 3) {
+                    printf("O FAIL %s\tparser=%s doc=%s stage=%s work=%zu seed=%llu kind=%s phase=%s exit=%d signal=%d cpu-budget=%ds %s | %s | base-document=%s | child-output=%s\n",
+                           key.c_str(), parser.c_str(), docId.c_str(), stageName, k, (unsigned long long)g_cfg.seed, kind.c_str(), phaseName(r.phase), r.exitCode, r.signal,
+                           g_cfg.cpuBudget, escLine(QByteArray::fromStdString(first), 300).c_str(), escLine(QByteArray::fromStdString(summary), 300).c_str(),
+                           xml.c_str(), r.outPath.c_str());
+                } else suppressed++;
+            }
+            fflush(stdout);
+        };
+        pool.run(nBatches, childFn, onResult);
     };
-    pool.run(nBatches, childFn, onResult);
+
+    if (!g_cfg.singleProbe.empty()) {
+        int t = 0, sh = 0, sz = 0;
+        sscanf(g_cfg.singleProbe.c_str(), "%d,%d,%d", &t, &sh, &sz);
+        runStage("sp", { { W_PROBE, t, -1, -1, -1, sh, sz } }, 1);
+        for (auto &kv : timings) for (auto &sv : kv.second) printf("X %s size=%d cpu_us=%lld alloc=%lld\n", kv.first.c_str(), sv.first, sv.second, allocs[kv.first][sv.first]);
+        vh::finish();
+        return 0;
+    }
+    // ---- stage 0: regress + defaults + every document unmutated
+    {
+        std::vector<Work> work;
+        for (size_t i = 0; i < g_nRegress; i++) work.push_back({ W_DOC, int(i), -1, -1, -1, 0, 0 });
+        for (size_t p = 0; p < g_table.size(); p++) if (g_table[p].defaultOutput) work.push_back({ W_DEFAULT, 0, -1, -1, int(p), 0, 0 });
+        for (size_t i = g_nRegress; i < g_docs.size(); i++) work.push_back({ W_DOC, int(i), -1, -1, -1, 0, 0 });
+        runStage("s0", work, 24);
+    }
+    // ---- stage 1: scaling probes
+    std::vector<int> depthSizes = quick ? std::vector<int> { 100, 200, 400 } : std::vector<int> { 100, 200, 400, 800 };
+    std::vector<int> childSizes = quick ? std::vector<int> { 500, 1000, 2000 } : std::vector<int> { 1000, 2000, 4000, 8000, 16000 };
+    std::vector<int> lenSizes = quick ? std::vector<int> { 1 << 16, 1 << 18, 1 << 20 } : std::vector<int> { 1 << 16, 1 << 18, 1 << 20, 1 << 22 };
+    if (g_cfg.probes) {
+        std::vector<Work> work;
+        for (size_t t = 0; t < templates().size(); t++)
+            for (int sh = 0; sh < SH_COUNT; sh++) {
+                const auto &sizes = (sh == SH_DEPTH || sh == SH_DEPTH_UNIT) ? depthSizes : sh == SH_CHILDREN ? childSizes : lenSizes;
+                for (int sz : sizes) work.push_back({ W_PROBE, int(t), -1, -1, -1, sh, sz });
+            }
+        runStage("s1", work, 1);
+        // evaluate growth per (parser, template, shape): exponent e of cost ~ size^e between the smallest and the largest size.
+        //  * allocated bytes (deterministic): reported when e > 1.5 and the largest run allocated >= 1 MB
+        //  * CPU time (noisy): reported only when unmistakable, e > 1.8 and the largest run took >= 1 s CPU; smaller effects are
+        //    listed as suspects in the statistics
+        std::map<std::string, std::string> worst;   // key -> replay text (largest exponent wins)
+        std::map<std::string, double> worstExp;
+        auto tplXml = [&](const QByteArray &name) { for (auto &t : templates()) if (name == t.name) return std::string(t.xml); return std::string(); };
+        for (auto &kv : timings) {
+            if (kv.second.size() < 2) continue;
+            vh::stat("probe_series_evaluated");
+            QList<QByteArray> f = QByteArray::fromStdString(kv.first).split('\t');
+            int shape = f[2].toInt();
+            auto &al = allocs[kv.first];
+            auto lo = *kv.second.begin(), hi = *kv.second.rbegin();
+            double r = std::log(double(hi.first) / double(lo.first));
+            double expoT = std::log(double(hi.second) / std::max<double>(double(lo.second), 500.0)) / r;
+            double expoA = std::log(std::max<double>(double(al.rbegin()->second), 1.0) / std::max<double>(double(al.begin()->second), 4096.0)) / r;
+            std::string series;
+            for (auto &sv : kv.second) series += " " + std::to_string(sv.first) + "->" + std::to_string(sv.second) + "us/" + std::to_string(al[sv.first]) + "B";
+            auto report = [&](const std::string &key, double e, const char *measure) {
+                if (e <= worstExp[key]) return;
+                worstExp[key] = e;
+                worst[key] = "parser=" + f[0].toStdString() + " template=" + f[1].toStdString() + " dimension=" + shapeName(shape) + (shape == SH_DEPTH_UNIT ? "(self-nested unit)" : "") +
+                    " measure=" + measure + " growth-exponent=" + std::to_string(e) + " cost-by-size(cpu-us/allocated-bytes):" + series + " (sanitizer build; template document: " + tplXml(f[1]) + ")";
+            };
+            if (expoA > 1.5 && al.rbegin()->second >= (1 << 20)) report("C02:superlinear:" + f[0].toStdString() + ":" + shapeName(shape), expoA, "allocated-bytes");
+            else if (expoT > 1.8 && hi.second >= 1000000) report("C02:superlinear-cpu:" + f[0].toStdString() + ":" + shapeName(shape), expoT, "cpu-time");
+            else if (expoT > 1.6 && hi.second >= 50000) { vh::stat("cpu_superlinear_suspects"); if (xLeft > 0) { xLeft--; printf("X cpu-time suspect (not reported): %s %s %s exponent %.2f:%s\n", f[0].constData(), f[1].constData(), shapeName(shape), expoT, series.c_str()); } }
+        }
+        for (auto &kv : worst) { printf("O FAIL %s\t%s\n", kv.first.c_str(), kv.second.c_str()); failCount[kv.first]++; }
+        vh::stat("probe_series", long(timings.size()));
+    }
+    // ---- stage 2: big depth (stack use) for parsers that scaled linearly in depth and did not time out
+    if (g_cfg.probes) {
+        std::set<std::string> slow;
+        for (auto &kv : failCount)
+            for (const char *pre : { "C02:superlinear:", "C02:superlinear-cpu:" }) {
+                size_t pl = strlen(pre);
+                if (kv.first.rfind(pre, 0) == 0 && kv.first.size() > pl + 6 && kv.first.substr(kv.first.size() - 6) == ":depth") slow.insert(kv.first.substr(pl, kv.first.size() - pl - 6));
+            }
+        std::vector<Work> work;
+        long skippedSlow = 0;
+        for (size_t t = 0; t < templates().size(); t++)
+            for (size_t p = 0; p < g_table.size(); p++) {
+                // only pairs that were admitted in stage 1
+                bool any = false;
+                for (int sh : { SH_DEPTH, SH_DEPTH_UNIT }) any |= timings.count(g_table[p].name + "\t" + templates()[t].name + "\t" + std::to_string(sh)) > 0;
+                if (!any) continue;
+                if (slow.count(g_table[p].name) || probeCrashed.count(g_table[p].name)) { skippedSlow++; continue; }
+                work.push_back({ W_PROBE, int(t), -1, -1, int(p), SH_DEPTH, g_cfg.depth });
+                work.push_back({ W_PROBE, int(t), -1, -1, int(p), SH_DEPTH_UNIT, g_cfg.depth });
+            }
+        vh::stat("bigdepth_pairs_skipped_superlinear", skippedSlow);
+        vh::stat("bigdepth_items", long(work.size()));
+        runStage("s2", work, 1);
+    }
+    // ---- stage 3: mutations (kinds dealt round-robin so every kind gets an equal share)
+    if (g_cfg.mutations) {
+        std::vector<Work> work;
+        int g = int(g_cfg.seed % M_KINDS);
+        int perSub = std::max(1, g_cfg.perDoc / 6);   // top-level documents get perDoc mutants each, extracted sub-elements perDoc/6
+        for (int m = 0; m < g_cfg.perDoc; m++)
+            for (size_t i = g_nRegress; i < g_docs.size(); i++)
+                if (i < g_nTop || m < perSub) work.push_back({ W_MUT, int(i), m, (g++) % M_KINDS, -1, 0, 0 });
+        runStage("s3", work, 24);
+    }
 
     // ---- totals
     long long *T = pool.totals;
@@ -396,8 +666,9 @@ int main(int argc, char **argv)
     vh::stat("documents_top_level", long(g_nTop));
     vh::stat("documents_sub_elements", long(g_docs.size() - g_nTop));
     vh::stat("corpus_rejected_by_qdom", rejected);
-    vh::stat("work_items", long(work.size()));
+    vh::stat("work_items", workTotal);
     vh::stat("items_run", T[C_ITEMS]);
+    vh::stat("probe_items", T[C_PROBE_ITEMS]);
     vh::stat("mutation_kinds", M_KINDS);
     vh::stat("admits_calls", T[C_ADMIT_CALLS]);
     vh::stat("admitted_pairs", T[C_ADMITTED]);
@@ -411,7 +682,8 @@ int main(int argc, char **argv)
     vh::stat("fixpoint_up_to_sibling_order", T[C_FIX_ORDER_ONLY]);
     vh::stat("ownform_up_to_sibling_order", T[C_OWN_ORDER_ONLY]);
     vh::stat("own_output_not_admitted_by_own_type_check", T[C_OWN_NOT_ADMITTED]);
-    vh::stat("mutants_not_wellformed", T[C_MUT_NOT_WF]);
+    vh::stat("default_output_not_admitted", T[C_DEFAULT_NOT_ADMITTED]);
+    vh::stat("inputs_not_wellformed", T[C_MUT_NOT_WF]);
     vh::stat("mutation_kind_not_applicable", T[C_MUT_NOT_APPLICABLE]);
     vh::stat("canon_crosschecks", T[C_XCHECK]);
     vh::stat("canon_differs_only_in_ns_declarations", T[C_NSDECL_ONLY]);
@@ -419,9 +691,9 @@ int main(int argc, char **argv)
     vh::stat("child_crashes", crashes);
     vh::stat("crash_storms", pool.crashStorms);
     vh::stat("fail_lines_suppressed", suppressed);
-    vh::stat("max_call_ms", T[C_MAX_CALL_MS]);
+    vh::stat("max_call_cpu_ms", T[C_MAX_CALL_MS]);
     vh::stat("max_depth_passed", T[C_MAX_DEPTH_OK]);
-    vh::stat("nest_depth", g_cfg.depth);
+    vh::stat("bigdepth", g_cfg.depth);
     vh::stat("workers", g_cfg.workers);
     vh::stat("wall_ms", wall.elapsed());
     vh::stat("kind:unmutated", T[C_KIND0 - 1]);
